@@ -1209,6 +1209,18 @@ fn has_kind(t: &Runtype, pred: &dyn Fn(&RuntypeKind) -> bool) -> bool {
     }
 }
 
+fn top_union_members(t: &Runtype, defs: &Defs, out: &mut Vec<Runtype>, depth: usize) {
+    match &t.kind {
+        RuntypeKind::AnyOf(ms) if depth < 20 => {
+            for m in ms {
+                top_union_members(m, defs, out, depth + 1);
+            }
+        }
+        RuntypeKind::Ref(n) if depth < 20 && defs.contains_key(n) => top_union_members(&defs[n].clone(), defs, out, depth + 1),
+        _ => out.push(t.clone()),
+    }
+}
+
 struct Materialised {
     head: Runtype,
     tail: Vec<NamedSchema>,
@@ -1431,8 +1443,19 @@ fn c07_case(rep: &mut Report, w: &Watch, a: &Runtype, b: &Runtype, defs: &[Named
                         }
                     }
                     if let Some((v, want, got)) = bad {
+                        // attribution of a lost value: is it, read structurally, also a value of ANOTHER
+                        // member of the left operand's union (the recorded defect: a later member is kept
+                        // only outside the earlier ones and then dropped), or is nothing covering it?
+                        let cause = if want {
+                            let mut members = vec![];
+                            top_union_members(a, &dm, &mut members, 0);
+                            let covering = members.iter().filter(|m| !matches!(rm::rt_exact(m, &dm, &v), Ok(true)) && matches!(rm::rt_open(m, &dm, &v), Ok(true))).count();
+                            if covering > 0 { "|cause:covered-by-sibling" } else { "|cause:no-covering-sibling" }
+                        } else {
+                            ""
+                        };
                         rep.violation(
-                            &format!("exclude-result-means-something-else|{}|{}|on-{}", if want { "loses-member" } else { "gains-member" }, if negation_in_head { "negation-dropped" } else { "no-negation" }, tag_of(&v)),
+                            &format!("exclude-result-means-something-else|{}|{}|on-{}{}", if want { "loses-member" } else { "gains-member" }, if negation_in_head { "negation-dropped" } else { "no-negation" }, tag_of(&v), cause),
                             "meaning-preserved",
                             format!("Exclude of\n{}\nmaterialised: {}\nafter remove_nots_of_intersections_and_empty_of_union: {}\nvalue {}: exact value of S and not a value of T = {}, exact value of the type handed to code generation = {}", case_show(&c), show_mat(&mat), tgen::show(&h2), v.show(), want, got),
                             replay.clone(),
